@@ -85,9 +85,36 @@ CHECKS = {
             "explicit-state BFS of the real implementation vs. reference model (bounded exhaustive)"),
 }
 
+# what the third round of independently written changes added to the enumeration (DESIGN.md §9.5)
+ADDED = {
+    "C01": "Further families: 3-level and name-repeating paths, must-fail writes, boundary values incl. the reserved value in three spellings, copy/move relative to a sub-group, absolute paths addressed through another group's handle (directed), require_dataset mismatches; per node the listing through .parent and early-exit visits are compared.",
+    "C02": "Also: opens with explicit manifest_file=, refused exclusive creates, opens of a proper prefix, merge onto existing targets, base-less directories x every open mode; the state key includes the record object's plain attributes.",
+    "C03": "The refused-mutation list of the 'r' cell is also run through every record handle that navigation hands out.",
+    "C04": "Byte faults are repeated on the set without its base (allow_baseless=True); after every removal the directory is also opened by name in r/r+/a.",
+    "C05": "Also: merge through the other record class, sources with a group name repeated deeper in a path.",
+    "C06": "Alphabet also: copy of the root, node objects as copy source, one kept node.meta object used twice, moves back to an earlier path; an odd-names family; start states rich / nested / descendants; raw-scan invariant 'no reserved-name entity outside the two documented places'.",
+    "C07": "Also an odd-names family and a start state with child, grandchild and sibling objects of a never-attached ancestor.",
+    "C08": "Also an odd-names family (reserved prefix as infix/suffix), reversed() listings, parent listings and early-exit visits against the plain tree.",
+    "C09": "The compared view includes parent listings and early-exit visits; directed family with a group named like its child; copy of the root and node-object sources.",
+    "C10": "A second spelling with prefix-related sibling names; manifest extensions through every sequence of <=2 (thorough 3) patches made directly / by resuming an uncommitted patch / via a stub, with or without new extensions.",
+    "C11": "Recovery modes on every uncommitted crash image: resume+discard, resume+commit, discard+refused commit, refused commit on 'r', read-only merge (an interrupted patch must not come out as a committed container).",
+    "C12": "Also: JSON-LD constants with falsy values, a re-use oracle (copy(update=..) of an instance serialised before), NEL inside strings.",
+    "C13": "Also: new fields by bare assignment, two products of one type factory (same qualified name), numeric bounds given through Annotated Field().",
+    "C14": "Operands are converted with from_partial() before the merge and the merge result afterwards.",
+    "C15": "The state key includes the flags of the container object a wrapper hangs on; transitions also: mutating the dict returned by .acl, metadata listings (values/items -> stored node).",
+    "C16": "Every second reference in the pair/triple matrices is a copy(update=..) of a used neighbour.",
+    "C17": "Also files of 1 MiB +-1 and 3 MiB, and files embedded below a group whose name re-appears in the path with group copy/move/merge.",
+    "C18": "Also a family with prefix-related sibling names and one with symlink targets differing in letter case only.",
+    "C19": "The second build of every tree is hashed as Path('.') from inside and by its relative name from the parent.",
+    "C20": "Also child-schema objects attached under the parent schema's name and the descendants start state.",
+}
+
+
 def build():
     checks = []
     for pid, (cat, ref, text, note, tech) in sorted(CHECKS.items()):
+        if pid in ADDED:
+            text = text.rstrip() + " " + ADDED[pid]
         checks.append({
             "property_id": pid,
             "quick_cmd": f"./check {pid} --tier quick",
